@@ -7,16 +7,19 @@
 package secp256k1montgomery
 
 //@ func Uint64ToUint1
+//@   ct
 //@   props C01 C17
 //@   ensures result == ite(u == 0, 0, 1)
 //@
 //@ func cmovznzU64
+//@   ct
 //@   props C01 C17
 //@   requires arg1 <= 1
 //@   ensures *out1 == ite(arg1 == 0, arg2, arg3)
 //@   modifies out1
 //@
 //@ func Selectznz
+//@   ct
 //@   props C01 C17
 //@   requires arg1 <= 1
 //@   ensures out1[0] == ite(arg1 == 0, old(arg2[0]), old(arg3[0]))
@@ -26,21 +29,25 @@ package secp256k1montgomery
 //@   modifies out1
 //@
 //@ func Nonzero
+//@   ct
 //@   props C01 C17
 //@   ensures (*out1 == 0) <==> (arg1[0] == 0 && arg1[1] == 0 && arg1[2] == 0 && arg1[3] == 0)
 //@   modifies out1
 //@
 //@ func SetOne
+//@   ct
 //@   props C01
 //@   ensures e4(out1) < P && fmP(e4(out1)) == 1
 //@   modifies out1
 //@
 //@ func Msat
+//@   ct
 //@   props C01
 //@   ensures evalw(out1) == P
 //@   modifies out1
 //@
 //@ func Add
+//@   ct
 //@   props C01
 //@   requires e4(arg1) < P && e4(arg2) < P
 //@   ensures e4(out1) < P
@@ -50,6 +57,7 @@ package secp256k1montgomery
 //@   modifies out1
 //@
 //@ func Sub
+//@   ct
 //@   props C01
 //@   requires e4(arg1) < P && e4(arg2) < P
 //@   ensures e4(out1) < P
@@ -59,6 +67,7 @@ package secp256k1montgomery
 //@   modifies out1
 //@
 //@ func Opp
+//@   ct
 //@   props C01
 //@   requires e4(arg1) < P
 //@   ensures e4(out1) < P
@@ -68,6 +77,7 @@ package secp256k1montgomery
 //@   modifies out1
 //@
 //@ func Mul
+//@   ct
 //@   props C01
 //@   requires e4(arg1) < P && e4(arg2) < P
 //@   using prodbound_P(e4(arg1), e4(arg2))
@@ -82,6 +92,7 @@ package secp256k1montgomery
 //@   modifies out1
 //@
 //@ func Square
+//@   ct
 //@   props C01
 //@   requires e4(arg1) < P
 //@   using prodbound_P(e4(arg1), e4(arg1))
@@ -96,6 +107,7 @@ package secp256k1montgomery
 //@   modifies out1
 //@
 //@ func FromMontgomery
+//@   ct
 //@   props C01
 //@   requires e4(arg1) < P
 //@   cut r0: (x20 + x22*W + x24*W2 + x26*W3 + x27*W4)*W == old(arg1[0]) + x2*P
@@ -109,6 +121,7 @@ package secp256k1montgomery
 //@   modifies out1
 //@
 //@ func ToMontgomery
+//@   ct
 //@   props C01
 //@   requires e4(arg1) < P
 //@   cut r0: (x27 + x29*W + x31*W2 + x33*W3 + x34*W4)*W == old(arg1[0])*R2P + x9*P
